@@ -23,6 +23,7 @@ From Trie Require Spec.
 From Trie Require Model Encode.
 From Trie Require InsertProofs.
 From C03 Require Import Model ModelY Proofs ProofsY Main MainX MainY ViewPure PureAll PureAllX PureAllC.
+From C03 Require Import SpecRoot.
 
 (* No step of a fork history changes what is seen through any handle other than the one it
    mutates; steps that mutate no handle (Snapshot, SetVersion — raising the version included —,
@@ -187,6 +188,82 @@ Example C03_pure_agrees_nonvacuous :
      = [([(k12, v40); (k1234, v3)], true); ([(k12, v3); (k1234, v3)], false);
         ([(k1234, v3); ([n2b 32], v40)], false)].
 Proof. vm_compute. split; reflexivity. Qed.
+
+(* ---- snapshots and the Polkadot specification root (SpecRoot.v) ----
+   C01's root theorem is about the pure trie, C03_pure_agrees about the heap; this corollary joins them.
+   [mxrun hist] replays the fork history on the MAP SPECIFICATION alone (Trie/Spec.v): per handle an
+   ordered byte-string map driven by bm_put / bm_del / bm_clear_prefix / bm_clear_prefix_limit, the
+   handle's version, and the flag "the version never changed while the map was non-empty"; Snapshot
+   copies the triple.  No trie and no heap occur on that side.
+   [xguards hist] = no step lies in a recorded C01/C02 finding class, i.e. exactly the hypotheses of
+   Trie.MapProofs.Rep_delete, ClearProofs.Rep_clear_prefix, LimitProofs.Rep_clear_prefix_limit, on the
+   map m the handle holds when the step runs:
+     Del k             guard_delete_exhausted (build_trie (kv_of_bmap m)) k = false   (finding
+                       delete-exhausted-key; only k = [] on a root with a non-empty partial key)
+     Clear p           guard_trim m p = false                                          (prefix-trim)
+     ClearLimit p l    guard_trim m p, guard_limit_zero m p l, guard_limit_order m p l all false.
+   Put, Snapshot, SetVersion, WriteDirty, Hash carry no guard; there is no Get step in a history.
+   Then for EVERY handle j: Entries() through j is exactly the map m of its lineage (m strictly
+   sorted), and Hash() is spec_root H ver (kv_of_bmap m) — the root of the canonical trie built from m
+   by longest-common-prefix bucketing, with no reference to the insertion algorithm — whenever the
+   handle's version never changed on a non-empty trie (pu = true; see C03_pure_agrees for why that
+   condition is real behaviour, and C03_spec_root_flag_needed below). *)
+Theorem C03_snapshot_root_is_spec_root :
+  forall (H : list byte -> list byte) (hist : list xstep),
+  xfrozen_parents hist = true -> limits_u32 hist = true -> xguards hist = true ->
+  forall j m pv pu, nth_error (mxrun hist) j = Some (m, pv, pu) ->
+  Trie.Spec.bm_sorted m = true
+  /\ exists h, view H true (xrun H true true hist init_state) j = Some (h, m)
+               /\ (pu = true -> h = Trie.Spec.spec_root H (ver_of pv) (Trie.Spec.kv_of_bmap m)).
+Proof. exact snapshot_root_is_spec_root. Qed.
+Print Assumptions C03_snapshot_root_is_spec_root.
+
+(* The same with a guard that does not mention the canonical trie: no Delete of the empty key
+   ([xguards_simple]: as xguards, but Del k requires k <> []). *)
+Theorem C03_snapshot_root_is_spec_root_simple :
+  forall (H : list byte -> list byte) (hist : list xstep),
+  xfrozen_parents hist = true -> limits_u32 hist = true -> xguards_simple hist = true ->
+  forall j m pv pu, nth_error (mxrun hist) j = Some (m, pv, pu) ->
+  Trie.Spec.bm_sorted m = true
+  /\ exists h, view H true (xrun H true true hist init_state) j = Some (h, m)
+               /\ (pu = true -> h = Trie.Spec.spec_root H (ver_of pv) (Trie.Spec.kv_of_bmap m)).
+Proof. exact snapshot_root_is_spec_root_simple. Qed.
+Print Assumptions C03_snapshot_root_is_spec_root_simple.
+
+(* non-vacuity: a snapshot tree 0 -> {1 -> 2, 3} of a V1 trie (version set while empty) holding a
+   40-byte, hence hashed, value; Delete, Put of another hashed value, a limited and an unlimited
+   clear on the snapshots.  All hypotheses hold, all four flags are true, Hash()/Entries() of every
+   handle are the specification root / the map, and the roots differ (also V1 from V0). *)
+Example C03_spec_root_nonvacuous :
+  xfrozen_parents spec_hist = true /\ limits_u32 spec_hist = true /\ xguards spec_hist = true
+  /\ xguards_simple spec_hist = true
+  /\ mxrun spec_hist = [(spec_m0, true, true); (spec_m1, true, true); (spec_m2, true, true); (spec_m0, true, true)]
+  /\ (let st := xrun blake2b_256 true true spec_hist init_state in
+      view blake2b_256 true st 0
+        = Some (Trie.Spec.spec_root blake2b_256 Trie.Encode.V1 (Trie.Spec.kv_of_bmap spec_m0), spec_m0)
+      /\ view blake2b_256 true st 1
+        = Some (Trie.Spec.spec_root blake2b_256 Trie.Encode.V1 (Trie.Spec.kv_of_bmap spec_m1), spec_m1)
+      /\ view blake2b_256 true st 2
+        = Some (Trie.Spec.spec_root blake2b_256 Trie.Encode.V1 (Trie.Spec.kv_of_bmap spec_m2), spec_m2)
+      /\ view blake2b_256 true st 3 = view blake2b_256 true st 0)
+  /\ Trie.Spec.spec_root blake2b_256 Trie.Encode.V1 (Trie.Spec.kv_of_bmap spec_m0)
+     <> Trie.Spec.spec_root blake2b_256 Trie.Encode.V0 (Trie.Spec.kv_of_bmap spec_m0)
+  /\ Trie.Spec.spec_root blake2b_256 Trie.Encode.V1 (Trie.Spec.kv_of_bmap spec_m1)
+     <> Trie.Spec.spec_root blake2b_256 Trie.Encode.V1 (Trie.Spec.kv_of_bmap spec_m0)
+  /\ Trie.Spec.spec_root blake2b_256 Trie.Encode.V1 (Trie.Spec.kv_of_bmap spec_m2)
+     <> Trie.Spec.spec_root blake2b_256 Trie.Encode.V1 (Trie.Spec.kv_of_bmap spec_m1).
+Proof. exact spec_hist_nonvacuous. Qed.
+
+(* informational: the condition pu = true is needed — a V0 trie is snapshotted, the snapshot raised to
+   V1 while non-empty and written to: the flag of its map is false, Entries() is still the map, and
+   Hash() is neither the V1 nor the V0 specification root of the map. *)
+Example C03_spec_root_flag_needed :
+  xfrozen_parents mixed_hist = true /\ limits_u32 mixed_hist = true /\ xguards mixed_hist = true
+  /\ nth_error (mxrun mixed_hist) 1 = Some (mixed_m1, true, false)
+  /\ exists h, view blake2b_256 true (xrun blake2b_256 true true mixed_hist init_state) 1 = Some (h, mixed_m1)
+               /\ h <> Trie.Spec.spec_root blake2b_256 Trie.Encode.V1 (Trie.Spec.kv_of_bmap mixed_m1)
+               /\ h <> Trie.Spec.spec_root blake2b_256 Trie.Encode.V0 (Trie.Spec.kv_of_bmap mixed_m1).
+Proof. exact mixed_hist_flag_needed. Qed.
 
 (* The pinned code (MustBeHashed and SetDirty applied to the shared node before
    prepForMutation) violated the property: raising a snapshot's version and re-putting an
